@@ -8,6 +8,7 @@ mod hitobj;
 mod events;
 mod curve;
 mod reader;
+mod records;
 
 use util::*;
 
@@ -30,6 +31,7 @@ fn main() {
         ("cache", "replay") => curve::cache_replay(&args, &mut s),
         ("reader", "replay") => reader::replay(&args, &mut s),
         ("reader", "relations") => reader::relations(&args, &mut s),
+        ("records", "replay") => records::replay(&args, &mut s),
         (m, o) => {
             eprintln!("unknown module/mode {m} {o}");
             std::process::exit(2);
